@@ -729,9 +729,34 @@ func checkCgroupTable(c *Check) {
 			for _, in := range b.Instrs {
 				if bo, isB := in.(*ssa.BinOp); isB && bo.Op == token.ADD {
 					d := describe(bo)
+					// strconv.FormatUint(x, 10) or a helper of the package named after it (formatUint(x))
+					d = strings.ReplaceAll(d, "formatUint(", "FormatUint(")
 					qi, pi := strings.Index(d, "FormatUint("+fn.Params[1].Name()), strings.Index(d, "FormatUint("+fn.Params[2].Name())
 					if qi >= 0 && pi > qi && strings.Contains(d, `" "`) {
 						ok = true
+					}
+				}
+			}
+		}
+		if !ok {
+			// second form: the bytes are appended in order — AppendUint(_, quota, 10), a blank, AppendUint(_, period, 10)
+			for _, ci := range callInstrs(fn) {
+				call, isCall := ci.(*ssa.Call)
+				if n, _ := calleeOf(ci); n != "strconv.AppendUint" || !isCall || len(call.Call.Args) != 3 || stripConv(call.Call.Args[1]) != ssa.Value(fn.Params[2]) {
+					continue
+				}
+				if ten, okT := constInt(call.Call.Args[2]); !okT || ten != 10 {
+					continue
+				}
+				if ap, isAp := stripConv(call.Call.Args[0]).(*ssa.Call); isAp {
+					if bi, isB := ap.Call.Value.(*ssa.Builtin); isB && bi.Name() == "append" && len(ap.Call.Args) == 2 && isOneBlank(ap.Call.Args[1]) {
+						if first, isF := stripConv(ap.Call.Args[0]).(*ssa.Call); isF {
+							if n1, _ := calleeOf(first); n1 == "strconv.AppendUint" && len(first.Call.Args) == 3 && stripConv(first.Call.Args[1]) == ssa.Value(fn.Params[1]) {
+								if t1, ok1 := constInt(first.Call.Args[2]); ok1 && t1 == 10 {
+									ok = true
+								}
+							}
+						}
 					}
 				}
 			}
@@ -742,11 +767,20 @@ func checkCgroupTable(c *Check) {
 	for _, nm := range []string{"V2.ReadUint", "v1controller.ReadUint"} {
 		if fn := p.Func(cg, nm); fn != nil {
 			ok := false
-			for _, ci := range callInstrs(fn) {
+			for _, ci := range callInstrsDeep(fn, 1) {
 				if n, _ := calleeOf(ci); n == "strconv.ParseUint" {
 					b, ok1 := constInt(ci.Common().Args[1])
 					bits, ok2 := constInt(ci.Common().Args[2])
-					ok = ok1 && b == 10 && ok2 && bits == 64 && errChecked(ci)
+					ok = ok1 && b == 10 && ok2 && bits == 64 && (errChecked(ci) || errReturnedDeep(p, ci))
+					if ok && ci.Parent() != fn {
+						// parsed in a helper: the helper's error is returned by the reader as well
+						ok = false
+						for _, c2 := range callInstrs(fn) {
+							if _, callee := calleeOf(c2); callee == ci.Parent() && (errChecked(c2) || errReturnedDeep(p, c2)) {
+								ok = true
+							}
+						}
+					}
 				}
 			}
 			c.Cond(ok, "5/unit-table", cg+"."+nm+":parse", p.Pos(fn.Pos()), "statistics are parsed as decimal uint64, errors returned", "statistics are not parsed with ParseUint(_, 10, 64) with the error returned")
@@ -847,4 +881,22 @@ func joinsChildPath(fn *ssa.Function, recv, name ssa.Value, depth int) bool {
 		}
 	}
 	return false
+}
+
+// isOneBlank: the variadic argument is the one-element list {' '}.
+func isOneBlank(v ssa.Value) bool {
+	sl, ok := v.(*ssa.Slice)
+	if !ok {
+		return false
+	}
+	a, ok := sl.X.(*ssa.Alloc)
+	if !ok {
+		return false
+	}
+	els, ok := arrayLitElems(a)
+	if !ok || len(els) != 1 {
+		return false
+	}
+	k, isC := constInt(els[0])
+	return isC && k == 32
 }
